@@ -257,8 +257,8 @@ def check_compare_common(case):
         raise Reject('constant row after sampling', 'degenerate:constant-row')
     method = case['method']
     sk = sigma_arr(case['sigma'])
-    r1 = RDMs(a.copy())
-    r2 = b.copy() if case['arr2'] else RDMs(b.copy())
+    r1 = RDMs(gen.relayout(a.copy()))
+    r2 = gen.relayout(b.copy()) if case['arr2'] else RDMs(gen.relayout(b.copy()))
     sig = 'compare:common:' + method
     if method in WHITENED:
         sig += ':' + sigma_label(case['sigma']).replace(':', '-')
@@ -418,7 +418,7 @@ def check_pool(case):
     method, fn = case['method'], case['fn']
     sk = sigma_arr(case['sigma'])
     sig = 'pool:%s:%s' % (fn, method)
-    rd = RDMs(a.copy())
+    rd = RDMs(gen.relayout(a.copy()))
     if fn == 'pooling':
         pooled = lib(pool_pooling, rd, method=method, sigma_k=sk, on_error='violation',
                      sig=sig + ':raises')
@@ -472,7 +472,7 @@ def check_ceiling(case):
         raise Reject('constant row after sampling', 'degenerate:constant-row')
     method = case['method']
     sig = 'ceiling:common:' + method
-    rd = RDMs(a.copy(), rdm_descriptors={'grp': list(case['groups'])})
+    rd = RDMs(gen.relayout(a.copy()), rdm_descriptors={'grp': list(case['groups'])})
     lo, up = lib(boot_noise_ceiling, rd, method=method, rdm_descriptor='grp',
                  on_error='violation', sig=sig + ':raises')
     x = np.nan_to_num(a)
